@@ -38,6 +38,13 @@ def gen_ops(tier, rng):
             for (d, p) in [(2, 1), (5, 1), (17, 1), (100, 1), (5, 2), (4, 4)]:
                 ops.append((f"gen {combo} {d} {p}" + (" dump" if d * p <= 64 else ""), {"cat": "gen-fast-one-parity", "p": p}))
             ops.append((f"enc {combo} - 5 1 1000 {rng.randrange(1, 1<<30)}", {"cat": "enc-fast-one-parity", "p": 1, "size": 1000}))
+    # a custom matrix next to WithFastOneParityMatrix with one parity shard: the custom row decides (New tests it first)
+    for k in range(4):
+        cf = f"custom:{rng.randrange(1, 999)}"
+        for combo in [f"{cf}+xor", f"xor+{cf}"]:
+            for d in [2, 4, 11]:
+                ops.append((f"gen {combo} {d} 1" + (" dump" if d <= 4 else ""), {"cat": "gen-custom-fast-one-parity", "p": 1}))
+                ops.append((f"enc {combo} - {d} 1 {rng.choice([31, 1000, 70000])} {rng.randrange(1, 1<<30)}", {"cat": "enc-custom-fast-one-parity", "p": 1, "size": 1000}))
     for combo in itertools.permutations(["par1", "jerasure", "cauchy"], 3):
         ops.append((f"gen {'+'.join(combo)} 4 4 dump", {"cat": "gen-option-order", "p": 4}))
     for _ in range(60 if tier == "quick" else 2000):
